@@ -296,7 +296,20 @@ class C08Run(object):
             self.count(self.fired, 'dsig:%d' % sig)
             if sig in TERM_SIGS:
                 self.shutdown_triggered('signal', None)
-            w.daemon_signal(sig)
+            handled = w.daemon_signal(sig)
+            if not handled and sig in TERM_SIGS and \
+                    self.exit_code == 'none' and \
+                    any(p.alive for p in k.children_of_daemon()):
+                # the daemon has handed the signal back to its default
+                # disposition while it is still stopping its workers: a
+                # second, impatient signal kills it in the middle
+                self.viol('killed_by_a_second_signal',
+                          'signal %d arrived %.3f s after the shutdown began: '
+                          'no handler is installed any more and workers %s '
+                          'are still alive' % (
+                              sig, w.sim.now - (self.trigger_t or w.sim.now),
+                              [p.pid for p in k.children_of_daemon()
+                               if p.alive][:4]))
 
     def shutdown_triggered(self, how, req, slot='?'):
         w = self.world
@@ -657,6 +670,11 @@ class C08(Prop):
             ops.append({'op': 'clockjump', 'late': True,
                         'delta': rng.choice([-3600.0, -86400.0, 3600.0, -2.0]),
                         'at': tt + rng.choice([0.0, 0.01, 0.05, 0.2, 0.5])})
+        if rng.random() < 0.15:
+            # an impatient second termination signal while the shutdown runs
+            ops.append({'op': 'dsig', 'sig': rng.choice(TERM_SIGS),
+                        'late': True,
+                        'at': tt + rng.choice([0.02, 0.1, 0.3, 0.8])})
         # deaths racing the shutdown
         for _ in range(rng.choice([0, 0, 1, 2])):
             ops.append({'op': 'die', 'at': tt + rng.choice(
